@@ -17,8 +17,6 @@
 extern "C" int __lsan_do_recoverable_leak_check(void) __attribute__((weak));
 
 namespace sim {
-bool pristine_native_hash(const std::string &spec, const std::string &target, unsigned long fmask, int n, uint64_t ds,
-                          uint64_t &hash_out);
 namespace {
 
 // ---------------------------------------------------------------------------
@@ -546,64 +544,6 @@ static void do_run(State &st, Prog *pp, CodeObj *co, const std::string &mode_s, 
       c.violation("determinism", "repeated-run-differs", strf("%s: two runs of the same code on the same inputs differ", meta.name.c_str()));
   }
 }
-
-}  // namespace
-// Runs `spec` natively in a fresh process (exec of ourselves): compile for the
-// target with the flag mask, run on the seeded inputs, report the output hash.
-bool pristine_native_hash(const std::string &spec, const std::string &target, unsigned long fmask, int n, uint64_t ds,
-                          uint64_t &hash_out) {
-  int pfd[2];
-  if (pipe(pfd) != 0) return false;
-  pid_t pid = fork();
-  if (pid == 0) {
-    close(pfd[0]);
-    dup2(pfd[1], 1);
-    std::string a3 = strf("%#lx", fmask), a4 = strf("%d", n), a5 = strf("%llu", (unsigned long long)ds);
-    execl("/proc/self/exe", "orcsim", "pristine", spec.c_str(), target.c_str(), a3.c_str(), a4.c_str(), a5.c_str(), (char *)nullptr);
-    _exit(127);
-  }
-  close(pfd[1]);
-  std::string out;
-  char buf[512];
-  ssize_t k;
-  while ((k = read(pfd[0], buf, sizeof buf)) > 0) out.append(buf, k);
-  close(pfd[0]);
-  int stt;
-  waitpid(pid, &stt, 0);
-  unsigned long long h = 0;
-  size_t pos = out.find("PRISTINE ok ");
-  if (pos == std::string::npos) return false;
-  if (sscanf(out.c_str() + pos, "PRISTINE ok %llu", &h) != 1) return false;
-  hash_out = h;
-  return true;
-}
-int pristine_main(int argc, char **argv) {
-  if (argc < 7) return 3;
-  std::string spec = argv[2], target = argv[3];
-  unsigned long fmask = strtoul(argv[4], nullptr, 0);
-  int n = atoi(argv[5]);
-  uint64_t ds = strtoull(argv[6], nullptr, 0);
-  unsetenv("ORC_CODE"); unsetenv("ORC_DEBUG"); unsetenv("ORC_BACKEND"); unsetenv("ORC_TARGET");
-  unsetenv("XDG_RUNTIME_DIR"); unsetenv("HOME"); unsetenv("TMPDIR");
-  corpus_load();
-  fs::reset();
-  fs::enable(true);
-  fs::set_dir("/tmp", fs::P_OK);
-  orc_init();
-  install_debug_sink();
-  ProgMeta meta;
-  OrcProgram *p = build_program(spec, "prog", &meta);
-  OrcTarget *t = target == "default" ? orc_target_get_default() : orc_target_get_by_name(target.c_str());
-  if (!t || !t->executable) { printf("PRISTINE no-target\n"); return 0; }
-  int res = orc_program_compile_full(p, t, orc_target_get_default_flags(t) & (unsigned)fmask);
-  if (!ORC_COMPILE_RESULT_IS_SUCCESSFUL(res)) { printf("PRISTINE not-native %#x\n", res); return 0; }
-  RunData d;
-  make_inputs(meta, ds, n, d);
-  run_with(p, nullptr, meta, RUN_EXEC, d);
-  printf("PRISTINE ok %llu\n", (unsigned long long)hash_outputs(meta, d));
-  return 0;
-}
-namespace {
 
 static void free_prog(State &st, size_t i) {
   Prog &p = st.progs[i];
